@@ -112,6 +112,16 @@ func (match4Engine) Run(ctx *fw.Ctx, cs any) {
 		if k%3 == 0 {
 			p.Opts = append(p.Opts, pkt.O4(61, 1, 2, 0, 0, 0, 3, byte(k)))
 		}
+		if k%8 == 7 {
+			// clients of other link types: no hardware address in the header (or one of another length), the
+			// identity is in a client identifier
+			hl := []int{0, 0, 8, 16, 1}[rng.Intn(5)]
+			p = pkt.Request4(xid, mac[:0:0], []byte{1, 3}[k%2])
+			p.HLen = byte(hl)
+			rng.Read(p.Chaddr[:hl])
+			p.HType = []byte{32, 1, 6, 27}[rng.Intn(4)]
+			p.Opts = append(p.Opts, pkt.O4(61, clientID61(rng, mac)...))
+		}
 		p.Opts = append(p.Opts, noise4(rng, k%4 == 0, false)...)
 		if k%5 == 0 {
 			p.Opts = append(p.Opts, pkt.O4(55, 1, 3, 6, 60, 66, 67, 97))
